@@ -14,16 +14,19 @@ package keeper
 
 //@ func Keeper.SetWrkChain(ctx, wrkchain) (err)
 //@   props C07 C08 C09
+//@   nopanic
 //@   modifies wrk_store
 //@   ensures err == nil && wrk_store == wcPut(old(wrk_store), wrkchain)
 
 //@ func Keeper.IsWrkChainRegistered(ctx, wrkchainId) (ok)
 //@   props C07 C08 C09
+//@   nopanic
 //@   pure
 //@   ensures ok == wcHas(wrk_store, wrkchainId)
 
 //@ func Keeper.GetWrkChain(ctx, wrkchainId) (w, found)
 //@   props C07 C08 C09
+//@   nopanic
 //@   pure
 //@   ensures found == wcHas(wrk_store, wrkchainId)
 //@   ensures found ==> w == wcGet(wrk_store, wrkchainId)
@@ -60,11 +63,13 @@ package keeper
 
 //@ func Keeper.HasWrkChainStorageLimit(ctx, wrkchainId) (ok)
 //@   props C08 C09
+//@   nopanic
 //@   pure
 //@   ensures ok == limHas(wrk_store, wrkchainId)
 
 //@ func Keeper.GetWrkChainStorageLimit(ctx, wrkchainId) (lim, found)
 //@   props C08 C09
+//@   nopanic
 //@   pure
 //@   ensures found == limHas(wrk_store, wrkchainId)
 //@   ensures found ==> lim == unmarshalLimit(wrk_store[kLimit(wrkchainId)])
@@ -79,11 +84,13 @@ package keeper
 
 //@ func Keeper.SetWrkChainBlock(ctx, wrkchainId, wrkchainBlock) (err)
 //@   props C07 C08
+//@   nopanic
 //@   modifies wrk_store
 //@   ensures err == nil && wrk_store == blkPut(old(wrk_store), wrkchainId, wrkchainBlock)
 
 //@ func Keeper.IsWrkChainBlockRecorded(ctx, wrkchainId, height) (ok)
 //@   props C07 C08
+//@   nopanic
 //@   pure
 //@   ensures ok == blkHas(wrk_store, wrkchainId, height)
 
@@ -95,6 +102,7 @@ package keeper
 
 //@ func Keeper.deleteWrkChainHash(ctx, wrkchainId, height) (err)
 //@   props C07 C08
+//@   nopanic
 //@   modifies wrk_store
 //@   ensures err == nil
 //@   ensures blkHas(old(wrk_store), wrkchainId, height) ==> wrk_store == blkDel(old(wrk_store), wrkchainId, height)
@@ -104,6 +112,7 @@ package keeper
 
 //@ func Keeper.GetParams(ctx) (params)
 //@   props C08 C09 C16 C06
+//@   nopanic
 //@   pure
 //@   ensures wrkParamsSet(wrk_store) ==> params == wrkParams(wrk_store)
 
@@ -117,6 +126,7 @@ package keeper
 
 //@ func Keeper.GetParamDenom(ctx) (r)
 //@   props C06 C16
+//@   nopanic
 //@   pure
 //@   ensures wrkParamsSet(wrk_store) ==> r == wrkParams(wrk_store).Denom
 //@ func Keeper.GetParamRegistrationFee(ctx) (r)
@@ -150,6 +160,7 @@ package keeper
 
 //@ func Keeper.GetLastWrkChainHeightInState(ctx, wrkchainID) (height)
 //@   props C07 C08
+//@   nopanic
 //@   pure
 //@   requires BLK_KEYED(wrk_store, wrkchainID)
 //@   ensures forall h uint64 :: {wrk_store[kBlock(wrkchainID, h)]} blkHas(wrk_store, wrkchainID, h) ==> height <= h && blkHas(wrk_store, wrkchainID, height)
@@ -278,7 +289,8 @@ package keeper
 
 // logging has no effect on module state
 //@ func Keeper.Logger(ctx) (l)
-//@   trusted the logger handle is not modelled; the method only derives a logger from the context
+//@   props C01
+//@   nopanic
 //@   pure
 
 
